@@ -625,6 +625,9 @@ impl Debugger {
 
                                 // ignore possible signals and watchpoints
                                 while self.step_over_breakpoint()?.is_some() {}
+                                // libraries loaded at startup are known now: deferred breakpoints
+                                // may have become resolvable
+                                print_warns!(self.refresh_deferred());
                                 continue;
                             }
                             BrkptType::LinkerMapFn => {
